@@ -17,6 +17,12 @@ RULES: Dict[str, str] = {
     'R-LOAD-PURE': 'sa.rules.effects:run_load_pure',
     'R-INDENT-PAIRING': 'sa.rules.indenter:run_pairing',
     'R-INDENT-GRAMMAR': 'sa.rules.indenter:run_grammar',
+    'R-SENTINEL-SLOTS': 'sa.rules.forest:run_sentinel',
+    'R-PERCALL-ESCAPE': 'sa.rules.effects:run_percall_escape',
+    'R-COMPILE-COPIES': 'sa.rules.effects:run_compile_copies',
+    'R-SORT-TOTAL': 'sa.rules.sorttotal:run',
+    'R-SCAN-BUFFER': 'sa.rules.forest:run_scan_buffer',
+    'R-IDENTITY-EQ': 'sa.rules.eqhash:run_identity',
     'R-SPLIT-TOTAL': 'sa.rules.indenter:run_split_total',
     'R-SERIAL-AGREE': 'sa.rules.serial:run_agree',
     'R-SERIAL-NORM': 'sa.rules.serial:run_norm',
@@ -74,18 +80,19 @@ def _p(rules, decides, not_decided, technique, extra_assume=()):
 
 
 PROPERTIES.update({
-    'C03': _p(['R-EQHASH', 'R-KEEP-PRED', 'R-PREFIX-PROTOCOL', 'R-AMBIG-INDEX', 'R-NODE-NAME'],
+    'C03': _p(['R-EQHASH', 'R-KEEP-PRED', 'R-PREFIX-PROTOCOL', 'R-AMBIG-INDEX', 'R-NODE-NAME', 'R-SENTINEL-SLOTS', 'R-SHALLOW-FORK'],
               'the predicates deciding whether a symbol stays in the tree agree (truth tables); generated helper names carry the prefix '
               'their consumers strip and users cannot define; wrapper-chain order matches the index computations; node names are '
-              'computed identically by all engines; eq/hash contract of the CNF classes (CYK sets).',
+              'computed identically by all engines; eq/hash contract of the CNF classes (CYK sets); child slots of the forest-to-tree '
+              'conversion are tested only by identity with their sentinel (None / falsy children are kept).',
               'that shaping equals the documented function of the derivation for all grammars; agreement of engine results in general.',
               'AST sibling-agreement rules: truth-table comparison of extracted predicates, prefix protocol, eq/hash field sets'),
-    'C04': _p(['R-NODECACHE', 'R-EQHASH', 'R-AMBIG-INDEX'],
+    'C04': _p(['R-NODECACHE', 'R-EQHASH', 'R-AMBIG-INDEX', 'R-SCAN-BUFFER', 'R-SENTINEL-SLOTS'],
               'SPPF symbol nodes are unique per (symbol, start, end) label and every family is attached to the node of its own label; '
               'packed/token nodes hash consistently with equality; ambiguity-expander indices refer to the unfiltered expansion.',
               'completeness or soundness of the forest and of its expansion to trees.',
               'AST idiom/def-use rule over every SymbolNode creation site; eq/hash field sets'),
-    'C05': _p(['R-ORDER-DET', 'R-PRIO-SIBLINGS'],
+    'C05': _p(['R-ORDER-DET', 'R-PRIO-SIBLINGS', 'R-EQHASH', 'R-SORT-TOTAL'],
               'no order-sensitive consumer on the Earley path iterates a hash-ordered collection, the ordered-set switch is wired end to '
               'end, no id()/hash()/random in ordering; priority modes rewrite rules and terminals alike, max-aggregation matches the '
               'child order, both child slots contribute, the sort key is the documented one.',
@@ -99,19 +106,19 @@ PROPERTIES.update({
               'character is chosen per representation.',
               'text[start:end] == token (regex semantics); nesting of spans for all grammars.',
               'argument-binding family check, CFG must-precede, linear-normal-form dataflow, predicate exhaustiveness table'),
-    'C07': _p(['R-LEX-PRECEDENCE', 'R-SERIAL-NORM'],
+    'C07': _p(['R-LEX-PRECEDENCE', 'R-SERIAL-NORM', 'R-SORT-TOTAL'],
               'the sort key is the documented precedence and the sorted list reaches the regex alternation unchanged (slice bounds of the '
               'chunking agree), for the basic lexer and every per-state lexer; the keyword exception is guarded by equal priority, a full '
               'match and a flag-subset test whose operands are sets on every construction path.',
               'tiling/coverage for all inputs; "contextual succeeds whenever basic does".',
               'sort-key normalisation against the documented order; def-use of the ordered list; guard extraction'),
-    'C08': _p(['R-EXC-DISCIPLINE', 'R-POS-AFFINITY', 'R-TOKEN-NONE-TEST', 'R-SPLIT-TOTAL', 'R-ACCEPTS-PURE'],
+    'C08': _p(['R-EXC-DISCIPLINE', 'R-POS-AFFINITY', 'R-TOKEN-NONE-TEST', 'R-SPLIT-TOTAL', 'R-ACCEPTS-PURE', 'R-SORT-TOTAL', 'R-IDENTITY-EQ'],
               'every raise reachable from parse() is an UnexpectedInput or a tabled configuration/internal/documented class; no broad handler '
               'swallows; EOFError of next_token is caught by every caller; the offending token / current position is what the error carries; '
               '$END borrows the last token whenever there is one (identity test, not truthiness); no partial split index on the input path.',
               'earliest position; exactness of expected/allowed/accepts; implicit exceptions.',
               'call-graph reachability + raise-site classification table; Engler-style inconsistent-null-test rule'),
-    'C10': _p(['R-SHARED-EFFECTS', 'R-POSTLEX-RESET'],
+    'C10': _p(['R-SHARED-EFFECTS', 'R-PERCALL-ESCAPE', 'R-COMPILE-COPIES', 'R-POSTLEX-RESET'],
               'the complete list of writes reachable from parse/lex/scan/parse_interactive and the interactive API, each classified by an '
               'ownership dataflow as per-call or shared; a shared write is accepted only as an atomic idempotent lazy publication; post-lexer '
               'state is reset (to its initial values) per stream.',
@@ -135,7 +142,7 @@ PROPERTIES.update({
               'accepts() and the expected set recognises every name the loader can produce.',
               '"resume equals parse" as a value-level statement; stateful user post-lexers shared by forks.',
               'copy audit (argument freshness / mutability via the written-class set), CFG dominance, string-shape producer/consumer check'),
-    'C14': _p(['R-SCAN-PROGRESS', 'R-SHALLOW-FORK', 'R-LEX-PRECEDENCE', 'R-POS-AFFINITY'],
+    'C14': _p(['R-SCAN-PROGRESS', 'R-SHALLOW-FORK', 'R-LEX-PRECEDENCE', 'R-POS-AFFINITY', 'R-WINDOW-BOUNDS'],
               'the search position strictly increases per iteration (end of match / candidate + 1), ranges come from the matched tokens, the '
               'replay parser is fresh per match and fed exactly the accepted prefix then feed_eof(last), the exploratory parse runs without '
               'callbacks, candidates are searched among non-ignored terminals, the exploratory window carries the full text\'s line state.',
@@ -158,7 +165,7 @@ PROPERTIES.update({
               'partial string operation on the newline token, end-of-stream DEDENTs borrow the last token by identity test.',
               'agreement with CPython\'s tokenizer on inputs.',
               'structural push/pop pairing proof over the AST, comparison-operator extraction, reset-set inclusion'),
-    'C20': _p(['R-VISIT-GUARD', 'R-NODECACHE', 'R-EQHASH'],
+    'C20': _p(['R-VISIT-GUARD', 'R-NODECACHE', 'R-EQHASH', 'R-SCAN-BUFFER'],
               'every push on the walk stack is preceded by the on-path test that diverts to on_cycle; enter/leave bookkeeping is paired; the loop '
               'ends only on stack exhaustion; visit_*_in overrides schedule only children of their node; node identity discipline as in C04.',
               'that the forest encodes exactly the derivations; is_ambiguous.',
